@@ -32,14 +32,23 @@ func remTest(cond ssa.Value, y ssa.Value) (int64, bool, bool) {
 		return 0, false, false
 	}
 	rem, ok := bo.X.(*ssa.BinOp)
-	if !ok || rem.Op != token.REM || rem.X != y {
+	if !ok || rem.X != y {
 		return 0, false, false
 	}
 	c, ok := constInt(rem.Y)
 	if !ok || c <= 0 {
 		return 0, false, false
 	}
-	return c, bo.Op == token.EQL, true
+	switch rem.Op {
+	case token.REM:
+		return c, bo.Op == token.EQL, true
+	case token.AND:
+		// y & (2^k - 1) == 0  ⇔  y ≡ 0 (mod 2^k), also for negative y in two's complement
+		if (c+1)&c == 0 {
+			return c + 1, bo.Op == token.EQL, true
+		}
+	}
+	return 0, false, false
 }
 
 func checkC19(p *Program, r *Report) {
